@@ -93,3 +93,19 @@ Definition keepn (removed : list N) (p : N * inode) : bool := negb (mem (fst p) 
 Definition keepe (removed : list N) (e : N * N * iedge) : bool :=
   negb (mem (fst (fst e)) removed) && negb (mem (snd (fst e)) removed).
 
+
+(** default-mode rule preparation, hydrogen counts of a side graph: [cnt es h x] = number of bonds of [es] joining [h]
+    and [x]; [sum_cnt es R x] = number of bonds joining [x] to the atoms of [R]; [mrel d p q]: node [p] is node [q]
+    with the hcount of a non-hydrogen atom raised by [d (id)] *)
+Definition is_Hm (a : mnode) : bool := N.eqb (m_el a) EL_H.
+Definition cnt (es : list (N * N * Z)) (h x : N) : Z :=
+  Z.of_nat (length (filter (fun e => peq (fst (fst e)) (snd (fst e)) h x) es)).
+Definition sum_cnt (es : list (N * N * Z)) (R : list N) (x : N) : Z := fold_right (fun h acc => cnt es h x + acc) 0 R.
+Definition mkeepn (R : list N) (p : N * mnode) : bool := negb (mem (fst p) R).
+Definition mkeepe (R : list N) (e : N * N * Z) : bool := negb (mem (fst (fst e)) R) && negb (mem (snd (fst e)) R).
+
+(** [p] is [q] with the hcount of a heavy atom raised by [d (id)] *)
+Definition mrel (d : N -> Z) (p q : N * mnode) : Prop :=
+  fst p = fst q /\ m_el (snd p) = m_el (snd q) /\ m_aro (snd p) = m_aro (snd q) /\ m_ch (snd p) = m_ch (snd q) /\
+  m_hc (snd p) = m_hc (snd q) + (if is_Hm (snd q) then 0 else d (fst q)).
+
